@@ -25,28 +25,45 @@ open Ecal.Drv Ecal.Engine
 /-- bytes as a string, one character per byte (injective; "." and "*" keep their codes) -/
 def hexStr (s : String) : Option String := (hexDecode s).map fun bs => String.ofList (bs.map Char.ofNat)
 
-def listOf (s : String) : List String := if s = "_" then [] else s.splitOn ","
+/-- `_` = empty list, `N` = nil slice / nil map (the same to the model) -/
+def listOf (s : String) : List String := if s = "_" || s = "N" then [] else s.splitOn ","
 
 def splitDots (s : String) : List String := s.splitOn "."
 
-/-- `H12i3` → class 12 -/
-def classOf (s : String) : Option Nat :=
-  match (String.ofList (s.toList.drop 1)).splitOn "i" with
-  | c :: _ => c.toNat?
-  | [] => none
+def digitsOf (cs : List Char) : List Char × List Char := cs.span Char.isDigit
 
-def parseVal (s : String) : Option Val :=
+/-- a value token `D16i31a31m36`: class 16 under the equality the property means, instance 31 of the
+    harness' table, `a31` = its class under the code's deep comparison where that differs (nil and empty
+    lists/maps are different there), `m36` = the class the pattern has after the program changed the
+    variable it came from (the code keeps the object, not a copy).
+    `useA`: read the value as the code compares it; `useM`: read a pattern as the changed value. -/
+def classOf (useA useM : Bool) (s : String) : Option Nat :=
+  let (c, rest) := digitsOf (s.toList.drop 1)
+  let rest := rest.drop 1                       -- 'i'
+  let (_, rest) := digitsOf rest
+  let (a, rest) := match rest with
+    | 'a' :: r => let (d, r') := digitsOf r; (some d, r')
+    | r => (none, r)
+  let m := match rest with
+    | 'm' :: r => some (digitsOf r).1
+    | _ => none
+  match useM, m, useA, a with
+  | true, some d, _, _ => (String.ofList d).toNat?
+  | _, _, true, some d => (String.ofList d).toNat?
+  | _, _, _, _ => (String.ofList c).toNat?
+
+def parseVal (useA : Bool) (s : String) : Option Val :=
   match s.toList with
   | ['Z'] => some .null
-  | 'H' :: _ => (classOf s).map .atom
-  | 'D' :: _ => (classOf s).map .deep
+  | 'H' :: _ => (classOf useA false s).map .atom
+  | 'D' :: _ => (classOf useA false s).map .deep
   | _ => none
 
-def parsePat (s : String) : Option Pat :=
+def parsePat (useA useM : Bool) (s : String) : Option Pat :=
   match s.toList with
   | ['A'] => some .any
-  | 'H' :: _ => (classOf s).map .atom
-  | 'D' :: _ => (classOf s).map .deep
+  | 'H' :: _ => (classOf useA useM s).map .atom
+  | 'D' :: _ => (classOf useA useM s).map .deep
   | 'X' :: rest => (String.ofList rest).toNat?.map .rx
   | _ => none
 
@@ -62,24 +79,24 @@ def parseEntry (f : String → Option β) (s : String) : Option (String × β) :
   | [k, v] => do pure ((← keyOf k), (← f v))
   | _ => none
 
-def parseRule (s : String) : Option Rule :=
+def parseRule (useA useM : Bool) (s : String) : Option Rule :=
   match s.splitOn ";" with
   | [name, kinds, scopes, state, prio, supp] => do
     let name ← hexStr name
     let kinds ← (listOf kinds).mapM hexStr
     let scopeNil := scopes = "N"
     let scopes ← (if scopeNil then pure [] else (listOf scopes).mapM hexStr)
-    let state ← if state = "N" then pure none else (some <$> (listOf state).mapM (parseEntry parsePat))
+    let state ← if state = "N" then pure none else (some <$> (listOf state).mapM (parseEntry (parsePat useA useM)))
     let prio ← prio.toInt?
     let supp ← (listOf supp).mapM hexStr
     pure { name, kinds := kinds.map splitDots, scope := scopes.map splitDots, scopeNil, state, prio, suppress := supp }
   | _ => none
 
-def parseEvent (s : String) : Option Event :=
+def parseEvent (useA : Bool) (s : String) : Option Event :=
   match s.splitOn ";" with
   | name :: kind :: state :: _ => do
     pure { name := (← hexStr name), kind := (← (listOf kind).mapM hexStr),
-           state := (← (listOf state).mapM (parseEntry parseVal)) }
+           state := (← (listOf state).mapM (parseEntry (parseVal useA))) }
   | _ => none
 
 def parseScope (s : String) : Option (List (List Seg × Bool)) :=
@@ -96,18 +113,19 @@ structure EvX where
   ev : Event
   scope : Option (List (List Seg × Bool))
   parent : Option (Nat × Nat)
+  detached : Bool := false     -- added through a fresh instance state: no parent monitor
 
-def parseEvX (s : String) : Option EvX := do
-  let ev ← parseEvent s
+def parseEvX (useA : Bool) (s : String) : Option EvX := do
+  let ev ← parseEvent useA s
   match s.splitOn ";" with
   | [_, _, _] => pure { ev, scope := none, parent := none }
   | [_, _, _, sc, par] =>
     let scope ← (if sc = "-" then pure none else (parseScope sc).map some)
     let parent ← (if par = "-" then pure none else
       match par.splitOn "." with
-      | [a, b] => do pure (some ((← a.toNat?), (← b.toNat?)))
+      | a :: b :: _ => do pure (some ((← a.toNat?), (← b.toNat?)))
       | _ => none)
-    pure { ev, scope, parent }
+    pure { ev, scope, parent, detached := (par.splitOn ".").length == 3 }
   | _ => none
 
 inductive SOp where
@@ -157,6 +175,10 @@ def dedupKeys (l : List (String × β)) : List (String × β) :=
 def asIsRule (r : Rule) : Rule :=
   { r with state := r.state.map fun st => dedupKeys (st.map fun kp => (unmark kp.1, kp.2)) }
 def asIsEvent (ev : Event) : Event := { ev with state := ev.state.filter fun kv => !isMarked kv.1 }
+/-- a possible repair: keys compared by their text, a string key first -/
+def byTextEvent (ev : Event) : Event :=
+  { ev with state := ev.state.filter (fun kv => !isMarked kv.1) ++
+                     (ev.state.filter fun kv => isMarked kv.1).map fun kv => (unmark kv.1, kv.2) }
 
 def setNames (l : List String) : String :=
   if l.isEmpty then "_" else ".".intercalate (((l.map hexName).mergeSort (fun a b => a ≤ b)).eraseDups)
@@ -175,10 +197,12 @@ structure Sim where
 def Sim.addStratum (s : Sim) (c : Bool) (n : String) : Sim :=
   if c && !s.strata.contains n then { s with strata := n :: s.strata } else s
 
-/-- `keysAsIs`: non-string keys as the code treats them (else: as distinct keys) -/
-def simulate (rx : Nat → Val → Bool) (keysAsIs : Bool) (ff : Bool) (failing : List Nat)
+/-- `keyMode` 0: non-string keys as the code treats them; 1: kept apart from string keys (the literal
+    reading); 2: compared by text. `detachedGlobal`: an event added by a sink through a fresh instance
+    state starts a new cascade with the global scope, as the code does (else: it stays in its cascade) -/
+def simulate (rx : Nat → Val → Bool) (keyMode : Nat) (detachedGlobal : Bool) (ff : Bool) (failing : List Nat)
     (rules : List Rule) (caseScope : Scope) (evs : List EvX) (ops : List SOp) : Sim :=
-  let rules := if keysAsIs then rules.map asIsRule else rules
+  let rules := if keyMode == 1 then rules else rules.map asIsRule
   ops.foldl (fun (s : Sim) op =>
     -- the failing action belongs to the rule object handed to AddRule: it only exists if that rule was accepted
     let failNames := failing.filterMap fun i =>
@@ -196,7 +220,7 @@ def simulate (rx : Nat → Val → Bool) (keysAsIs : Bool) (ff : Bool) (failing 
       match evs[i]? with
       | none => { s with bad := true }
       | some e =>
-        let ev := if keysAsIs then asIsEvent e.ev else e.ev
+        let ev := if keyMode == 0 then asIsEvent e.ev else if keyMode == 2 then byTextEvent e.ev else e.ev
         let added := match e.parent with
           | none => true
           | some (j, ri) => match rules[ri]?, alookup j s.ran with
@@ -205,7 +229,8 @@ def simulate (rx : Nat → Val → Bool) (keysAsIs : Bool) (ff : Bool) (failing 
         let sc := match e.scope with
           | some defs => Scope.build defs
           | none => match e.parent with
-            | some (j, _) => (alookup j s.scopes).getD caseScope
+            | some (j, _) =>
+              if e.detached && detachedGlobal then Scope.build [([], true)] else (alookup j s.scopes).getD caseScope
             | none => caseScope
         if !added then { s with outs := s.outs ++ [(i, "T*/M_/K*/X_")], ran := (i, []) :: s.ran, scopes := (i, sc) :: s.scopes }
         else
@@ -262,8 +287,9 @@ def runCase (payload : String) : String :=
   let fs := payload.splitOn " "
   match field fs "r", field fs "s", field fs "e", field fs "x" with
   | some r, some s, some e, some x =>
-    match (if r = "_" then some [] else (r.splitOn "|").mapM parseRule), parseScope s,
-          (if e = "_" then some [] else (e.splitOn "|").mapM parseEvX), parseTable x with
+    let parseRules := fun (useA useM : Bool) => if r = "_" then some [] else (r.splitOn "|").mapM (parseRule useA useM)
+    let parseEvs := fun (useA : Bool) => if e = "_" then some [] else (e.splitOn "|").mapM (parseEvX useA)
+    match parseRules true true, parseScope s, parseEvs true, parseTable x with
     | some rules, some defs, some evs, some tab =>
       -- a missing table entry must not go unnoticed
       let missing := evs.any fun e => rules.any fun r => (r.state.getD []).any fun kp =>
@@ -278,13 +304,41 @@ def runCase (payload : String) : String :=
       let defaultOps := (List.range rules.length).map SOp.rule ++ (List.range evs.length).map SOp.ev
       let ops := match field fs "z" with | some z => (parseSched z).getD defaultOps | none => defaultOps
       let sc := Scope.build defs
-      let base := simulate rx true ff failing rules sc evs ops
+      let base := simulate rx 0 true ff failing rules sc evs ops
       let res := render ecal rules.length evs.length base
       -- a sink whose statematch has a non-string key cannot mean what it says (`createRule` turns the key
-      -- into its text, `Rule.StateMatch` has string keys): the property is kept by refusing the declaration
+      -- into its text, `Rule.StateMatch` has string keys). Outcomes that keep the property: the declaration
+      -- is refused; the keys are kept apart; the keys are compared by text.
       let markedRule := rules.any fun r => (r.state.getD []).any fun kp => isMarked kp.1
-      let specKeys := if markedRule then "ERR-SINK" else res
-      let attrs := if specKeys != res then "\tkf=statematch-nonstring-key\tspec=" ++ specKeys else ""
+      let rend := fun (sim : Sim) => render ecal rules.length evs.length sim
+      let keyAlts := if markedRule then
+          ["ERR-SINK", rend (simulate rx 1 true ff failing rules sc evs ops), rend (simulate rx 2 true ff failing rules sc evs ops)]
+        else []
+      -- `scopematch []` reaches AddRule as a nil slice and is refused; accepting it as "no scope required" is as good
+      let nilScope := ecal && rules.any (·.scopeNil)
+      let scopeAlts := if nilScope then
+          [rend (simulate rx 0 true ff failing (rules.map fun r => { r with scopeNil := false }) sc evs ops)] else []
+      -- an event added by a sink through a fresh instance state (loop, function, addEventAndWait) loses its cascade
+      let detached := evs.any (·.detached)
+      let detAlts := if detached then [rend (simulate rx 0 false ff failing rules sc evs ops)] else []
+      -- the code's deep comparison separates nil from empty lists/maps and keeps the object of a list/map
+      -- pattern instead of its value at the declaration: the property's answers are alternatives
+      let variant := fun (useA useM : Bool) =>
+        match parseRules useA useM, parseEvs useA with
+        | some rs, some es => rend (simulate rx 0 true ff failing rs sc es ops)
+        | _, _ => res
+      let aliasAlt := variant true false      -- patterns are the declared values
+      let emptyAlt := variant false true      -- nil and empty alike
+      let bothAlt := variant false false
+      let valueAlts := [aliasAlt, emptyAlt, bothAlt]
+      let alts := (keyAlts ++ scopeAlts ++ detAlts ++ valueAlts).filter (· != res) |>.eraseDups
+      let kf := if (keyAlts.filter (· != res)).length > 0 then "\tkf=statematch-nonstring-key"
+        else if (detAlts.filter (· != res)).length > 0 then "\tkf=scope-lost-in-nested-instance-state"
+        else if aliasAlt != res then "\tkf=statematch-values-aliased"
+        else if emptyAlt != res || bothAlt != res then "\tkf=empty-list-not-equal" else ""
+      let specs := (List.range alts.length).zip alts |>.map fun (i, a) =>
+        "\tspec" ++ (if i == 0 then "" else toString (i + 1)) ++ "=" ++ a
+      let attrs := kf ++ String.join specs
       let st := if base.strata.isEmpty then "" else "\tst=" ++ ",".intercalate base.strata
       res ++ (if base.strata.contains "kind" then "\tnt=1" else "") ++ st ++ attrs
     | _, _, _, _ => "bad-payload"
